@@ -1,0 +1,32 @@
+//go:build verif
+
+// Contracts for package rpcserver (comment-only; read by /verif/bin/zv, never compiled into the product).
+package rpcserver
+
+// C19: ghost flag set only by a successful authorize; every data-disclosing call must be preceded by it.
+//@ ghost var authorized Bool
+
+//@ func (*server).authorize
+//@   ensures granted: result == nil ==> old(s.password) == "" || (ok && exists k in 0..len(passwords) :: passwords[k] == old(s.password))
+//@   ensures denied: result != nil ==> old(s.password) != ""
+//@   modifies *
+//@   loop 0 invariant none_yet: forall k in 0..$i :: passwords[k] != s.password
+//@   loop 0 invariant range: 0 <= $i && $i <= len(passwords)
+//@   ghost_ensures authorized == (result == nil)
+
+//@ func (*server).Query
+//@   requires !authorized
+//@   modifies *
+//@   at call DB.Query assert auth_before_query: authorized
+//@   at call SendMsg assert auth_before_send: authorized
+
+//@ func (*server).Follow
+//@   requires !authorized
+//@   modifies *
+//@   at call DB.Follow assert auth_before_follow: authorized
+//@   at call SendMsg assert auth_before_send: authorized
+
+//@ func (*server).HandleRemoteQueries
+//@   requires !authorized
+//@   modifies *
+//@   at call DB.RegisterQueryHandler assert auth_before_register: authorized
